@@ -31,6 +31,8 @@ type c09Case struct {
 	Finish    []int  `json:"finish"`
 	// Burst: the interleaved frames of V1 and the offending stream arrive in one segment
 	Burst bool `json:"burst,omitempty"`
+	// Early: handlers attach a response body stream as soon as they start (it is theirs until they return)
+	Early bool `json:"early_body_stream,omitempty"`
 }
 
 var c09Offences = []string{
@@ -258,7 +260,7 @@ func (x *c09Run) offender(cs c09Case) (tr []tframe, after func()) {
 }
 
 func c09Exec(cs c09Case) (*fw.Violation, *harness.Server, int) {
-	h := harness.NewServer(harness.ServerOpts{MaxConcurrentStreams: 3, MaxRequestBodySize: 12})
+	h := harness.NewServer(harness.ServerOpts{MaxConcurrentStreams: 3, MaxRequestBodySize: 12, EarlyBodyStream: cs.Early})
 	x := &c09Run{h: h, wants: map[uint32]harness.WantReq{}, nextID: 1}
 	mk := func(rule, shape, detail string) *fw.Violation {
 		return &fw.Violation{Rule: rule, Shape: shape, Detail: detail + "\n    events: " + strings.Join(h.EventLog, " ; "), Replay: map[string]any{"family": "c09", "case": cs}}
@@ -660,8 +662,11 @@ func runC09(c *fw.Ctx) {
 				}
 				pure := !strings.HasPrefix(off, "peer-rst") && off != "handler-panic"
 				for _, fin := range fins {
-					for _, mode := range []string{"", "one-segment", "finish-mid"} {
+					for _, mode := range []string{"", "one-segment", "finish-mid", "early-body-stream"} {
 						burst := mode == "one-segment"
+						if mode == "early-body-stream" && !(strings.HasSuffix(off, "handler-running") || strings.HasPrefix(off, "peer-rst") || off == "handler-panic") {
+							continue // only matters where a handler is running when its stream ends
+						}
 						if burst && !pure {
 							continue // the offending track of these reads the server's state between frames
 						}
@@ -671,7 +676,7 @@ func runC09(c *fw.Ctx) {
 						if item++; !c.Mine(item) {
 							continue
 						}
-						cs := c09Case{Offence: off, Split: split, Order: ord, Finish: fin, Burst: burst, FinishMid: mode == "finish-mid"}
+						cs := c09Case{Offence: off, Split: split, Order: ord, Finish: fin, Burst: burst, FinishMid: mode == "finish-mid", Early: mode == "early-body-stream"}
 						v, h, _ := c09Exec(cs)
 						js, _ := json.Marshal(cs)
 						c.Eval(nt(true, js))
